@@ -17,20 +17,119 @@ NUMERIC = {  # method -> (BuiltInFunction variant, receiver kinds, extra argumen
 POW_EXPONENTS = list(range(0, models.POW_MAX_EXP + 1))
 
 
+PARSERS = {  # string -> number parsers: method -> (extra argument kind, kind of the present result)
+    "parse_int": (None, "Int"), "parse_bigint": (None, "BigInt"), "parse_float": (None, "Float"), "parse_bool": (None, "Bool"),
+    "parse_byte": (None, "Byte"), "parse_int_radix": ("Int", "Int"), "parse_bigint_radix": ("Int", "BigInt"),
+}
+PARSER_VARIANTS = {"parse_int": "StrParseInt", "parse_bigint": "StrParseBigint", "parse_float": "StrParseFloat", "parse_bool": "StrParseBool",
+                   "parse_byte": "StrParseByte", "parse_int_radix": "StrParseIntRadix", "parse_bigint_radix": "StrParseBigintRadix"}
+DECLARED = {"int": "Int", "bigint": "BigInt", "float": "Float", "byte": "Byte", "bool": "Bool", "str": "Str"}
+
+
+def _abstract(v):
+    return isinstance(v, Opaque) and v.tag == "String"
+
+
+def m_abs_starts_with(ex, st, callee, args):
+    if not _abstract(ex.deref(st, args[0])):
+        raise Inconclusive("starts_with on a non-abstract string")
+    return [(None, ex.fresh("bool", "starts_with"))]
+
+
+def m_abs_str_get(ex, st, callee, args):
+    s = ex.deref(st, args[0])
+    if not _abstract(s):
+        raise Inconclusive("str::get on a non-abstract string")
+    c = ex.fresh("bool", "in_range").e
+    return [(c, models.some(Opaque("String", ("slice", s.data)))), (z3.Not(c), models.NONE)]
+
+
+def m_abs_unwrap_or_default(ex, st, callee, args):
+    v = ex.deref(st, args[0]) if isinstance(args[0], Ref) else args[0]
+    if isinstance(v, Adt) and v.ty == "Option":
+        return [(None, v.fields[0] if v.variant == "Some" else Opaque("String", "empty"))]
+    raise Inconclusive("unwrap_or_default on %r" % (v,))
+
+
+_abs_parse_re = __import__("re").compile(r"^core::str::<impl str>::parse::<(\w+)>$|^core::num::<impl (\w+)>::from_str_radix$")
+
+
+def m_abs_parse(ex, st, callee, args):
+    """parsing an ARBITRARY string: either fails or yields an arbitrary value of the target type (kind-level reasoning);
+    `from_str_radix` panics unless 2 <= radix <= 36 (documented)"""
+    m = _abs_parse_re.match(callee)
+    ty = m.group(1) or m.group(2)
+    if not _abstract(ex.deref(st, args[0])):
+        raise Inconclusive("parse of a non-abstract string")
+    okc = ex.fresh("bool", "parses").e
+    if ty == "bool":
+        val = ex.fresh("bool", "parsed")
+    elif ty == "f64":
+        val = ex.fresh("f64", "parsed")
+    else:
+        val = ex.fresh(ty, "parsed")
+    outs = []
+    guard = z3.BoolVal(True)
+    if "from_str_radix" in callee:
+        r = models.scalar(ex, st, args[1])
+        valid = z3.And(z3.UGE(r.e, 2), z3.ULE(r.e, 36))
+        outs.append((z3.Not(valid), sym.Panic("from_str_radix: radix must lie in the range 2..=36")))
+        guard = valid
+    outs.append((z3.And(guard, okc), models.ok(val)))
+    outs.append((z3.And(guard, z3.Not(okc)), models.err(Opaque("ParseError", ty))))
+    return outs
+
+
 class BuiltinKernels:
     def __init__(self, mf, overflow_checks, repo, seed=0):
         self.mf = mf
         targets.register_primitive_enum(repo)
         targets.register_enum_from_source(os.path.join(repo, "bytecode/src/function.rs"), "BuiltInFunction")
-        self.ex = sym.Executor(mf, overflow_checks, models.base_models(), targets.generic_resolver(mf, CRATE_PREFIXES), seed=seed)
+        m = models.base_models()
+        import re as _re
+        pre = [(r"^core::str::<impl str>::starts_with::<&str>$", m_abs_starts_with),
+               (r"^core::str::<impl str>::get::<std::ops::RangeFrom<usize>>$", m_abs_str_get),
+               (r"^Option::<&str>::unwrap_or_default$", m_abs_unwrap_or_default),
+               (_abs_parse_re.pattern, m_abs_parse)]
+        m.table = [(_re.compile(p), h) for p, h in pre] + m.table
+        self.ex = sym.Executor(mf, overflow_checks, m, targets.generic_resolver(mf, CRATE_PREFIXES), seed=seed)
         self.fn = targets.find_one(mf, r"function\.rs.*>::run$", lambda f: f.locals[1].strip() == "&function::BuiltInFunction")
 
     def encoded_functions(self):
         return {"BuiltInFunction::run": {"mir_item": self.fn, "mir_lines": self.mf.func(self.fn).nlines}}
 
-    def summarize(self, method, recv_kind, exponent=None):
+    def summarize_parser(self, method, variant):
+        """string -> number parser on an ARBITRARY string (abstract): result kinds per path"""
+        extra, _ = PARSERS[method]
+        operands = [Adt("Primitive", "Str", [Opaque("String", "recv")])]
+        inputs = [Sc("u8", z3.BitVecVal(0, 8))]
+        kinds = ["Str"]
+        if extra == "Int":
+            b = sym_payload("Int", "b")
+            inputs.append(b)
+            kinds.append("Int")
+            operands.append(prim("Int", b))
+        ctx = Adt("Ctx", None, [Adt("Vec", None, operands)] + [Opaque("ctx-field", i) for i in range(1, 6)])
+        cells = {("ctx",): ctx, ("self",): Adt("BuiltInFunction", variant, [])}
+        outs = self.ex.run(self.fn, [Ref(("self",)), Ref(("ctx",))], cells=cells)
+        res = []
+        from opkernels import decode_prim
+        for o in outs:
+            pc = z3.And(*o.pc) if o.pc else z3.BoolVal(True)
+            if o.kind == "panic":
+                res.append((pc, "panic", o.value.msg))
+            elif o.value.variant == "Err":
+                res.append((pc, "err", None))
+            else:
+                r = o.value.fields[0].fields[0]
+                kind, _ = decode_prim(o.cells, r.fields[0])
+                res.append((pc, "ok", kind))
+        return inputs, kinds, res
+
+    def summarize(self, method, recv_kind, exponent=None, variant=None):
         t = time.time()
-        variant, _, extra = NUMERIC[method]
+        variant0, _, extra = NUMERIC[method]
+        variant = variant or variant0
         inputs = [sym_payload(recv_kind, "a")]
         kinds = [recv_kind]
         operands = [prim(recv_kind, inputs[0])]
